@@ -329,8 +329,18 @@ def run_c09_bash_part(tier, seed, rep):
     """part (iii): the emitted bash script on the C09 shapes: matching and candidates equal the union
     reading of the grammar (which is the reading of G[||:=|] for matching), all words symbolic."""
     from . import e2
+    from . import e3
     fam = []
+    skipped = {'built-in file completion (not a fixed-output command)': 0, 'two equal within-word expressions at one point (part i, known finding)': 0}
     for g in family_c09(tier, seed)[:170 if tier == 'quick' else 400]:
+        if any(n[0] == 'ref' and n[1] in ('PATH', 'DIRECTORY') for e in list(g['variants']) + [d[2] for d in g['defs']] for n in gram.walk(e)):
+            skipped['built-in file completion (not a fixed-output command)'] += 1
+            continue
+        part1 = e3.analyse_c09((g, ('bash',)))
+        if any(v[1] in ('equal-subwords-two-targets', 'identical-subwords-two-targets') for v in part1['violations']):
+            # the bash behaviour on these grammars is the known finding of part (i); it is reported there
+            skipped['two equal within-word expressions at one point (part i, known finding)'] += 1
+            continue
         table = {}
         g2 = {'command': g['command'], 'variants': [probeify(v, table) for v in g['variants']],
               'defs': [(n, sh, probeify(e, table)) for (n, sh, e) in g['defs']]}
@@ -347,6 +357,7 @@ def run_c09_bash_part(tier, seed, rep):
     rep.coverage['bash_part'] = {k: sub.coverage[k] for k in ('programs', 'paths', 'status_counts', 'solver_queries_total', 'solver_time_s',
                                                                'counterexamples_replayed_in_real_bash', 'interpreter_runs_validated_against_real_bash',
                                                                'excluded_by_region_query', 'bounds')}
+    rep.coverage['bash_part']['grammars_left_to_other_parts'] = skipped
     rep.coverage['solver_queries_total'] = rep.coverage.get('solver_queries_total', 0) + sub.coverage['solver_queries_total']
 
 
